@@ -1047,7 +1047,7 @@ func (c *Conn) handleBdat(arg string) {
 		}()
 	}
 
-	c.lineLimitReader.LineLimit = 0
+	c.lineLimitReader.setLimit(0)
 
 	chunk := io.LimitReader(c.text.R, int64(size))
 	_, err = io.Copy(c.bdatPipe, chunk)
@@ -1063,14 +1063,14 @@ func (c *Conn) handleBdat(arg string) {
 		}
 
 		c.reset()
-		c.lineLimitReader.LineLimit = c.server.MaxLineLength
+		c.lineLimitReader.setLimit(c.server.MaxLineLength)
 		return
 	}
 
 	c.bytesReceived += int64(size)
 
 	if last {
-		c.lineLimitReader.LineLimit = c.server.MaxLineLength
+		c.lineLimitReader.setLimit(c.server.MaxLineLength)
 
 		c.bdatPipe.Close()
 
@@ -1093,7 +1093,7 @@ func (c *Conn) handleBdat(arg string) {
 
 		c.reset()
 	} else {
-		c.lineLimitReader.LineLimit = c.server.MaxLineLength
+		c.lineLimitReader.setLimit(c.server.MaxLineLength)
 
 		c.writeResponse(250, EnhancedCode{2, 0, 0}, "Continue")
 	}
@@ -1105,9 +1105,9 @@ var ErrDataReset = errors.New("smtp: message transmission aborted")
 
 // discardChunk consumes the payload of a refused BDAT command.
 func (c *Conn) discardChunk(size uint64) {
-	c.lineLimitReader.LineLimit = 0
+	c.lineLimitReader.setLimit(0)
 	io.Copy(ioutil.Discard, io.LimitReader(c.text.R, int64(size)))
-	c.lineLimitReader.LineLimit = c.server.MaxLineLength
+	c.lineLimitReader.setLimit(c.server.MaxLineLength)
 }
 
 var errPanic = &SMTPError{
